@@ -341,9 +341,9 @@ func TestHooks(t *testing.T) {
 			t.Errorf("%s: err = %v, want %q", name, err, wantErr)
 		}
 	}
-	after("null result", func(ex *Exchange) { ex.Responses[0]["result"] = nil }, 1, "requested first: 1 got: 0")
+	after("null result", func(ex *Exchange) { ex.Responses[0]["result"] = nil }, 1, "missing result for 1")
 	after("swap", func(ex *Exchange) { ex.Responses[0], ex.Responses[1] = ex.Responses[1], ex.Responses[0] }, 2, "requested first: 1 got: 2")
-	after("swap middle", func(ex *Exchange) { ex.Responses[1], ex.Responses[2] = ex.Responses[2], ex.Responses[1] }, 4, "corrupt chain segment")
+	after("swap middle", func(ex *Exchange) { ex.Responses[1], ex.Responses[2] = ex.Responses[2], ex.Responses[1] }, 4, "invalid data")
 	after("error", func(ex *Exchange) {
 		ex.Responses[0] = errResp(ex.Requests[0].ID, -32000, "boom")
 	}, 1, "code=-32000 msg=boom")
@@ -367,50 +367,6 @@ func TestHooks(t *testing.T) {
 }
 
 // Executable documentation of client behaviour the harness has to model or avoid.
-func TestClientQuirks(t *testing.T) {
-	n := NewNode(NewChain(4, GenOpts{TxsPerBlock: func(n uint64) int { return int(n % 3) }}))
-	defer n.Close()
-	c, url := client(n)
-	panics := func(name string, f func()) {
-		t.Helper()
-		defer func() {
-			if recover() == nil {
-				t.Errorf("%s: client no longer panics; update the quirk list", name)
-			}
-		}()
-		f()
-	}
-	// "result": null for Hash/Latest -> nil pointer dereference in the client.
-	panics("Hash(future block)", func() { c.Hash(ctx, url, 99) })
-	// A logs batch answered with a single element -> index out of range.
-	n.SetAfter(func(ex *Exchange) { ex.Responses = ex.Responses[:1] })
-	panics("logs batch with 1 response", func() { c.Get(ctx, url, filter("log_idx"), 1, 1) })
-	// Response ids are never checked; an error object with code 0 is not an error.
-	n.SetAfter(func(ex *Exchange) {
-		ex.Responses[0]["id"] = "bogus"
-		ex.Responses[0]["error"] = map[string]any{"code": 0, "message": "ignored"}
-	})
-	bs, err := c.Get(ctx, url, filter("tx_input"), 1, 1)
-	same(t, "wrong id + error code 0", []any{err, len(bs)}, []any{nil, 1})
-	// The tx field is tagged `chainID`; real nodes send `chainId`: never decoded.
-	same(t, "chainId", bs[0].Txs[0].ChainID.Uint64(), uint64(0))
-	n.SetAfter(nil)
-	// Receipts-only Get of a block the node does not have: no error, no hash, no txs.
-	bs, err = c.Get(ctx, url, filter("tx_status"), 9, 1)
-	same(t, "receipts of unknown block", []any{err, len(bs), bs[0].Num(), len(bs[0].Hash()), len(bs[0].Txs)}, []any{nil, 1, uint64(9), 0, 0})
-	// Same for an existing block without transactions (block 3: 3%3 == 0 txs).
-	bs, err = c.Get(ctx, url, filter("tx_status"), 3, 1)
-	same(t, "receipts of empty block", []any{err, len(bs[0].Hash())}, []any{nil, 0})
-	// trace_block returning [] (empty block) is a hard error.
-	_, err = c.Get(ctx, url, filter("trace_action_from"), 3, 1)
-	same(t, "traces of empty block", err, "getting traces: no rpc error but empty result")
-	// Headers/blocks of an unknown block are caught only by the number check.
-	_, err = c.Get(ctx, url, filter("block_time"), 3, 2)
-	same(t, "headers beyond head", err, "getting headers: headers: rpc response contains invalid data. requested last: 4 got: 0")
-	_, err = c.Get(ctx, url, filter("log_idx"), 3, 2)
-	same(t, "logs beyond head", err, "getting logs: eth backend missing logs for block: 4")
-}
-
 func checkInvariants(t *testing.T, c *Chain) {
 	t.Helper()
 	seen := map[string]bool{}
@@ -438,6 +394,7 @@ func checkInvariants(t *testing.T, c *Chain) {
 		}
 	}
 }
+
 
 func TestGeneratorDeterminism(t *testing.T) {
 	a, b := NewChain(8, GenOpts{}), NewChain(5, GenOpts{})
